@@ -140,7 +140,10 @@ def check(ctx):
                                      and isinstance(b.right, ast.Constant) for b in binds):
                         continue
                 if kind == 'assign':
-                    bad.append((node, 'assigns self.number_of_bits outside __init__'))
+                    # re-windowing the stream: acceptable only when the new number of available bits was first compared with the bits that exist
+                    ok, why = guard_status(f, node, 'consume', amount, resolver)
+                    if not ok:
+                        bad.append((node, 'assigns self.number_of_bits outside __init__ from a value that was not compared with the bits that remain'))
                     continue
                 ok, why = guard_status(f, node, kind, amount, resolver)
                 if ok is None:
